@@ -35,6 +35,7 @@ fn main() {
   };
   match id {
     "C02" => drive::c02::check(Ctx::new(id, &tier, "exploration"), replay),
+    "C07" => drive::c07::check(Ctx::new(id, &tier, "exploration"), replay),
     "C09" => drive::c09::check(Ctx::new(id, &tier, "model_checking"), replay),
     "C16" => drive::c16::check(Ctx::new(id, &tier, "model_checking"), replay),
     "C17" => drive::c17::check(Ctx::new(id, &tier, "model_checking"), replay),
